@@ -222,6 +222,16 @@ Definition lx_model (case : bool * list nat * list (lx_call * list stage)) : V :
       VL [VL vs; VB (wr (io c)); VB (unread c)]
   end.
 
+(* the same on a channel configured for slow sending (slow_send_delay, slow_send_chunksize) *)
+Definition lx_model_slow (case : bool * list nat * (Z * nat) * list (lx_call * list stage)) : V :=
+  match case with
+  | (ash, acc, sl, ks) =>
+      let c0 := lx_chan ash acc in
+      let c1 := mkChan (io c0) (prompt c0) (deaths c0) (lgs c0) (blacklist c0) (Some sl) (ctx c0) (nextid c0) in
+      let (vs, c) := lx_run ks c1 [] in
+      VL [VL vs; VB (wr (io c)); VB (unread c)]
+  end.
+
 (* shlex.quote against the model, and the model's word splitting against what the real shells made of the line:
    the observation is returned where the model is stuck, so only definite answers of the model are compared *)
 Definition shq_model (case : list (list (list N) * list (list N))) : V :=
